@@ -18,6 +18,9 @@ package aggregate
 //@ func NewKHashAggregate
 //@   requires stepsBatch >= 0
 //@   ensures[C08] never-fails: result1 == nil && result0 != nil
+// The label hash only covers every grouping label if the list is sorted (C04; C11: whatever order the query wrote them in):
+//@   ensures[C04,C11] grouping-labels-sorted: istype(result0, *aggregate.kAggregate) && sortedNames(cast(result0, *aggregate.kAggregate).labels) &&
+//@       len(cast(result0, *aggregate.kAggregate).labels) == len(labels) && cast(result0, *aggregate.kAggregate).by == by
 
 // ---- vector_table.go: aggregation over all series (by ()) ----------------------------------------
 // The accumulator of a vectorized table may be a gonum function that panics on an empty slice:
@@ -69,7 +72,7 @@ package aggregate
 // operator is pulled exactly once for every batch of the input, so both stay on the same steps.
 // Assumed: the worker hand-off (worker i returns workerTask(i, arg, vector) of the matching Send),
 // and that a batch is not longer than the batch size the operator was built for.
-//@ pred aggShape(a) = a != nil && len(a.params) == a.stepsBatch && len(a.workers) == a.stepsBatch && !isnil(a.newAccumulator) &&
+//@ pred aggShape(a) = a != nil && len(a.params) == a.stepsBatch && len(a.workers) == a.stepsBatch && !isnil(a.newAccumulator) && sortedNames(a.labels) &&
 //@     (forall j in 0..len(a.workers) :: a.workers[j] != nil)
 //@ pred aggInv(a) = aggShape(a) && a.next != nil && a.vectorPool != nil && (a.paramOp != nil ==> a.paramOp.oneSamplePerStep)
 // initializeTables: verified. Tables and series are set together, and only after both were built
@@ -151,6 +154,7 @@ package aggregate
 // error, as in the reference engine (statement of C04).
 //@ func (*kAggregate).init
 //@   requires a != nil && ctx != nil && a.next != nil && a.vectorPool != nil && !isnil(a.compare) && isnil(a.heaps) && isnil(a.inputToHeap) && len(a.heaps) == 0 && len(a.inputToHeap) == 0
+//@   requires[C04,C11] grouping-labels-sorted: sortedNames(a.labels)
 //@   panics may
 //@   assigns aggregate.kAggregate.series, aggregate.kAggregate.inputToHeap, aggregate.kAggregate.heaps, ghost hidx, model.VectorPool.stepSize, elems(*aggregate.samplesHeap)
 //@   ghostvar mw seqint = constseq(-1)
@@ -158,7 +162,7 @@ package aggregate
 //@   at line "a.inputToHeap = append(a.inputToHeap, h)" set a.hidx = store(a.hidx, len(a.inputToHeap), mw[hash])
 //@   ensures[C15] series-error-surfaces: callres("model.VectorOperator.Series", 1, 1) != nil ==> result != nil
 //@   ensures[C04,C13] every-input-series-has-a-heap-of-the-operator: result == nil ==> kInv(a) && heapsEmpty(a) && len(a.inputToHeap) == a.next.nSeries
-//@   loop 0 invariant shape: a != nil && a.vectorPool != nil && !isnil(a.compare) && 0 <= i && i <= len(series) && len(a.inputToHeap) == i && len(series) == a.next.nSeries && !isnil(hapsHash)
+//@   loop 0 invariant shape: a != nil && a.vectorPool != nil && !isnil(a.compare) && 0 <= i && i <= len(series) && len(a.inputToHeap) == i && len(series) == a.next.nSeries && !isnil(hapsHash) && sortedNames(a.labels)
 //@   loop 0 invariant separate-lists: (isnil(a.heaps) || fresh(a.heaps)) && (isnil(a.inputToHeap) || fresh(a.inputToHeap)) && (isnil(a.heaps) || ref(a.heaps) != ref(a.inputToHeap)) &&
 //@       allocated(a.heaps) && allocated(a.inputToHeap) && (isnil(a.heaps) ==> len(a.heaps) == 0) && (isnil(a.inputToHeap) ==> len(a.inputToHeap) == 0)
 //@   loop 0 invariant heaps-so-far: forall j in 0..len(a.heaps) :: a.heaps[j] != nil && allocated(a.heaps[j]) && !isnil(a.heaps[j].compare) && len(a.heaps[j].entries) == 0
@@ -167,7 +171,7 @@ package aggregate
 //@ func (*kAggregate).Next
 //@   requires ctx != nil && a != nil && a.next != nil && a.paramOp != nil && a.paramOp.oneSamplePerStep && a.vectorPool != nil && allocated(a.params)
 //@   requires heaps-built-once: a.once != 0 ==> kInv(a) && heapsEmpty(a) && len(a.inputToHeap) == a.next.nSeries
-//@   requires not-built-yet: a.once == 0 ==> !isnil(a.compare) && isnil(a.heaps) && isnil(a.inputToHeap) && len(a.heaps) == 0 && len(a.inputToHeap) == 0
+//@   requires not-built-yet: a.once == 0 ==> !isnil(a.compare) && isnil(a.heaps) && isnil(a.inputToHeap) && len(a.heaps) == 0 && len(a.inputToHeap) == 0 && sortedNames(a.labels)
 //@   panics may
 //@   ensures[C15] child-error-surfaces: ncalls("model.VectorOperator.Next") >= 1 && callres("model.VectorOperator.Next", 1, 1) != nil ==> result1 != nil
 //@   ensures[C15] second-child-error-surfaces: ncalls("model.VectorOperator.Next") >= 2 && callres("model.VectorOperator.Next", 2, 1) != nil ==> result1 != nil
@@ -286,6 +290,7 @@ package aggregate
 // name are deleted (the reference engine: lb.Del(grouping...); lb.Del(labels.MetricName)); for by(...)
 // only the grouping labels are kept. The label algebra itself (labels.Builder, hashing) is assumed.
 //@ func hashMetric
+//@   requires[C04,C11] grouping-labels-sorted: sortedNames(grouping)
 //@   ensures[C04,C19] without-deletes-the-grouping-labels-and-the-metric-name: without ==> ncalls("labels.(*Builder).Del") == 2 && ncalls("labels.(*Builder).Keep") == 0
 //@   ensures[C04,C19] by-keeps-only-the-grouping-labels: !without && len(grouping) > 0 ==> ncalls("labels.(*Builder).Keep") == 1 && ncalls("labels.(*Builder).Del") == 0
 //@   at labels.(*Builder).Del #1 assert[C04] grouping-labels-deleted: sameslice($ns, grouping)
@@ -381,7 +386,7 @@ package aggregate
 // output ids are dense; one label set per output series; one table per step of a batch. That two
 // series share a group exactly when their group labels agree rests on the label hash (assumed injective).
 //@ func (*aggregate).initializeScalarTables
-//@   requires a != nil && ctx != nil && a.next != nil && a.vectorPool != nil && a.stepsBatch >= 0 && !isnil(a.newAccumulator)
+//@   requires a != nil && ctx != nil && a.next != nil && a.vectorPool != nil && a.stepsBatch >= 0 && !isnil(a.newAccumulator) && sortedNames(a.labels)
 //@   panics may
 //@   assigns nothing
 //@   ghostvar mw seqint = constseq(-1)
